@@ -111,6 +111,7 @@ type c09Universe struct {
 	peerIdx  map[peer.ID]int // peer -> index
 	envs     [c09NP][c09NSeq][]*record.Envelope
 	envIdx   map[string]int // marshalled envelope -> p*100 + (seq-1)*10 + set
+	envPtr   map[*record.Envelope]int
 	badEnv   *record.Envelope
 	envBytes [c09NP][c09NSeq][][]byte
 }
@@ -137,7 +138,7 @@ var _ io.Reader = (*c09DetReader)(nil)
 var c09U *c09Universe
 
 func c09BuildUniverse(seed int64) (*c09Universe, error) {
-	u := &c09Universe{addrIdx: map[string]int{}, peerIdx: map[peer.ID]int{}, envIdx: map[string]int{}}
+	u := &c09Universe{addrIdx: map[string]int{}, peerIdx: map[peer.ID]int{}, envIdx: map[string]int{}, envPtr: map[*record.Envelope]int{}}
 	for i := 0; i < c09NP; i++ {
 		rd := &c09DetReader{seed: sha256.Sum256([]byte(fmt.Sprintf("c09-key-%d-%d", seed, i)))}
 		priv, pub, err := crypto.GenerateEd25519Key(rd)
@@ -180,6 +181,7 @@ func c09BuildUniverse(seed int64) (*c09Universe, error) {
 				u.envs[p][s] = append(u.envs[p][s], env)
 				u.envBytes[p][s] = append(u.envBytes[p][s], b)
 				u.envIdx[string(b)] = p*100 + s*10 + si
+				u.envPtr[env] = p*100 + s*10 + si
 			}
 		}
 	}
@@ -312,7 +314,7 @@ func (m *c09Model) recCode(p int) int {
 
 // insertCapped inserts a new (absent) address; with the per-peer cap reached a finite-class insertion first evicts
 // an unconnected entry with the nearest expiry - any of them on a tie (set-valued).
-func c09InsertCapped(states []c09Model, p, a int, ttl time.Duration, exp time.Time, cap int) []c09Model {
+func c09InsertCapped(states []c09Model, p, a int, ttl time.Duration, exp time.Time, cap int, ev *bool) []c09Model {
 	var out []c09Model
 	for _, st := range states {
 		if cap > 0 && !c09IsConn(ttl) {
@@ -327,6 +329,7 @@ func c09InsertCapped(states []c09Model, p, a int, ttl time.Duration, exp time.Ti
 				}
 			}
 			if n >= cap {
+				*ev = true
 				for v, e := range st.ent[p] {
 					if e.ok && !c09IsConn(e.ttl) && e.exp.Equal(min) {
 						s2 := st
@@ -357,7 +360,7 @@ func c09Resolve(toks []c09Tok) []int {
 }
 
 // add: "adding never shortens an address's lifetime" - an existing entry keeps the larger TTL and the later expiry.
-func (m c09Model) add(p int, as []int, ttl time.Duration, now time.Time, cap int) []c09Model {
+func (m c09Model) add(p int, as []int, ttl time.Duration, now time.Time, cap int, ev *bool) []c09Model {
 	states := []c09Model{m}
 	if ttl <= 0 {
 		return states
@@ -376,7 +379,7 @@ func (m c09Model) add(p int, as []int, ttl time.Duration, now time.Time, cap int
 				st.ent[p][a] = e
 				next = append(next, st)
 			} else {
-				next = append(next, c09InsertCapped([]c09Model{st}, p, a, ttl, exp, cap)...)
+				next = append(next, c09InsertCapped([]c09Model{st}, p, a, ttl, exp, cap, ev)...)
 			}
 		}
 		states = next
@@ -385,7 +388,7 @@ func (m c09Model) add(p int, as []int, ttl time.Duration, now time.Time, cap int
 }
 
 // set: "setting overrides it, setting a non-positive TTL removes exactly the named addresses".
-func (m c09Model) set(p int, as []int, ttl time.Duration, now time.Time, cap int) []c09Model {
+func (m c09Model) set(p int, as []int, ttl time.Duration, now time.Time, cap int, ev *bool) []c09Model {
 	states := []c09Model{m}
 	exp := now.Add(ttl)
 	for _, a := range as {
@@ -399,7 +402,7 @@ func (m c09Model) set(p int, as []int, ttl time.Duration, now time.Time, cap int
 				st.ent[p][a] = c09Ent{ok: true, ttl: ttl, exp: exp}
 				next = append(next, st)
 			default:
-				next = append(next, c09InsertCapped([]c09Model{st}, p, a, ttl, exp, cap)...)
+				next = append(next, c09InsertCapped([]c09Model{st}, p, a, ttl, exp, cap, ev)...)
 			}
 		}
 		states = next
@@ -429,7 +432,7 @@ func (m c09Model) clear(p int) c09Model {
 
 // consume (accepted): "evicts the addresses of the previous record that it no longer lists except those held by a
 // live connection"; the listed addresses are added with the given TTL; the record becomes the stored one.
-func (m c09Model) consume(p, seq, set int, ttl time.Duration, now time.Time, cap int) []c09Model {
+func (m c09Model) consume(p, seq, set int, ttl time.Duration, now time.Time, cap int, ev *bool) []c09Model {
 	if m.rec[p].ok {
 		keep := map[int]bool{}
 		for _, a := range c09RecSets[set] {
@@ -442,7 +445,7 @@ func (m c09Model) consume(p, seq, set int, ttl time.Duration, now time.Time, cap
 		}
 	}
 	m.rec[p] = c09RecSt{ok: true, seq: seq, set: set}
-	return m.add(p, c09RecSets[set], ttl, now, cap)
+	return m.add(p, c09RecSets[set], ttl, now, cap, ev)
 }
 
 func c09Rel(exp, now time.Time, ttl time.Duration) string {
